@@ -173,6 +173,16 @@ let dispatch (req : Sexp.t) : Sexp.t =
                     (get_opt (get_list get_style) styles)))
       | "apply_core", [inj; p; t] ->
         put_result (apply_core (get_inj inj) (get_aplan p) (get_fs t))
+      | "rewrite_headers", [from; to_; patch] ->
+        put_bytes (rewrite_headers (get_bytes from) (get_bytes to_) (get_bytes patch))
+      | "rewrite_headers_old", [from; to_; patch] ->
+        put_bytes (rewrite_headers_old (get_bytes from) (get_bytes to_) (get_bytes patch))
+      | "diffy_body", [patch] -> put_opt (put_list put_bytes) (diffy_body (get_bytes patch))
+      | "undo_core", [rs; restore; created; t] ->
+        let r = undo_core (get_list get_aren rs)
+            (get_list (function L [p; c] -> (get_path p, get_opt get_bytes c) | _ -> failwith "restore") restore)
+            (get_list get_path created) (get_fs t) in
+        L [put_bool r.u_ok; put_fs r.u_fs; put_list put_path r.u_failed]
       | "spec_apply", [p; t] -> put_fs (spec_apply (get_aplan p) (get_fs t))
       | "serde_plan", [p] ->
         let p = get_plan p in
